@@ -229,7 +229,9 @@ def gen_event(rnd, allow_nested=True, cls=None):
             cls = rnd.choice(["Event", "StartEvent", "StopEvent", "StopEvent", "InputRequiredEvent", "HumanResponseEvent"])
         else:
             cls = rnd.choice(BUILTIN if allow_nested else BUILTIN[:-1])
-    spec = {"cls": cls, "fields": typed_fields(rnd, cls), "data": {}, "setitem": {}}
+    spec = {"cls": cls, "fields": typed_fields(rnd, cls), "data": {}, "setitem": {},
+            # containers with a default_factory are not passed to the constructor but filled in place afterwards (ev.nums.append(...))
+            "inplace": rnd.random() < 0.2}
     # dynamic fields
     nd = rnd.choice([0, 0, 1, 1, 2, 3, 5])
     for _ in range(nd):
@@ -379,7 +381,23 @@ class Env:
         kw.update(spec["data"])
         if spec.get("has_result"):
             kw["result"] = spec["result"]
+        later = {}
+        if spec.get("inplace"):
+            for k in list(kw):
+                f = getattr(cls, "model_fields", {}).get(k)
+                elems = list(kw[k].values()) if isinstance(kw[k], dict) else (list(kw[k]) if isinstance(kw[k], list) else [])
+                if f is not None and f.default_factory in (list, dict) and isinstance(kw[k], (list, dict)) and kw[k] \
+                        and not any(isinstance(e, (dict, list)) or hasattr(e, "model_fields") for e in elems) \
+                        and (isinstance(kw[k], list) or "dict[str" in str(f.annotation)):
+                    # (elements that the constructor would validate into models are left to the constructor)
+                    later[k] = kw.pop(k)
         ev = cls(**kw)
+        for k, v in later.items():
+            cur = getattr(ev, k)
+            if isinstance(cur, list):
+                cur.extend(v)
+            else:
+                cur.update(v)
         for k, v in spec["setitem"].items():
             ev[k] = v
         return ev
